@@ -23,6 +23,13 @@ ASSUMPTIONS = [
 ]
 
 
+
+def _same_num(got, want):
+    """replay in doubles: the exact rational of the model against the library's double, to a few ulps"""
+    g, w = float(got), float(want)
+    return abs(g - w) <= 4e-16 * max(abs(g), abs(w)) + 1e-300
+
+
 def setup():
     shims.install_core()
 
@@ -281,7 +288,7 @@ def h_shape_int_snapped(n, span, pin):
     g = gbx.GeoBox.from_bbox(bbox, shape=n, tol=tol)
     res = max(sx, sy) / n
     A = g.affine
-    prove("square_pixels", And(ex(A.a) == res, ex(A.e) == -res))
+    prove("square_pixels", _same_num(A.a, res) and _same_num(A.e, -res) if symx.concrete_mode() else And(ex(A.a) == res, ex(A.e) == -res))
     longest = m_max(g.shape.x, g.shape.y) if not symx.concrete_mode() else max(g.shape.x, g.shape.y)
     prove("longest_side_n", longest == n)
     x0, y0 = g.pix2wld(0, 0)
@@ -304,7 +311,7 @@ def h_shape_int(n, span, pin):
     g = gbx.GeoBox.from_bbox(bbox, shape=n, tight=True, tol=tol)
     res = max(sx, sy) / n
     A = g.affine
-    prove("square_pixels", And(ex(A.a) == res, ex(A.e) == -res))
+    prove("square_pixels", _same_num(A.a, res) and _same_num(A.e, -res) if symx.concrete_mode() else And(ex(A.a) == res, ex(A.e) == -res))
     prove("longest_side_n", m_max(g.shape.x, g.shape.y) == n if not symx.concrete_mode() else max(g.shape.x, g.shape.y) == n)
     x0, y0 = g.pix2wld(0, 0)
     prove("tight_origin", And(ex(x0) == ex(l), ex(y0) == ex(b) + sy))
